@@ -56,7 +56,7 @@ def main():
         "samples": samples or ["none"], "distribution": dist, "evaluations": n, "distinct_nontrivial": len(dist),
         "variable_degree_lengths_verified": {k: sorted(v) for k, v in lengths.items()},
         "outside_supported_range": info_lines,
-        "rule": "STARKs defined through the public Stark trait (Fibonacci with boundary+transition constraints and public inputs, logUp permutation STARK, unconstrained STARK without quotient) x FRI configurations (arity 2 / 4 / 16, cap heights 1-4, rate bits 1-2); plain mode: circuit built for the proof's size; variable-degree mode: ONE circuit sized for 2^max verifying proofs of every 2^d, min <= d <= max (2^3..2^8, 2^4..2^14, 2^4..2^10), prover and native verifier given the circuit's FRI parameters; per proof: valid, one altered element per class (local / next / quotient / auxiliary openings, query leaf, Merkle siblings, step evaluation, final-polynomial coefficient, public input, trace / quotient / auxiliary / commit caps, PoW witness), the degree argument off by one, a proof of another length, a proof without transcript padding, a shortened final polynomial. native = verify_stark_proof (+ degree argument = proof degree); outer = set_stark_proof_with_pis_target, witness generation, gate constraints re-evaluated on every row, prove, verify, public inputs re-exposed",
+        "rule": "STARKs defined through the public Stark trait (Fibonacci with boundary+transition constraints and public inputs, logUp permutation STARK, unconstrained STARK without quotient; lookup STARKs of the random family of harness/src/c09.rs with 2-4 looking columns, linear-combination and next-row columns and a different filter per column at constraint degree 3 (famlookup-*)) x FRI configurations (arity 2 / 4 / 16, cap heights 1-4, rate bits 1-2); plain mode: circuit built for the proof's size; variable-degree mode: ONE circuit sized for 2^max verifying proofs of every 2^d, min <= d <= max (2^3..2^8, 2^4..2^14, 2^4..2^10), prover and native verifier given the circuit's FRI parameters; per proof: valid, one altered element per class (local / next / quotient / auxiliary openings, query leaf, Merkle siblings, step evaluation, final-polynomial coefficient, public input, trace / quotient / auxiliary / commit caps, PoW witness), the degree argument off by one, a proof of another length, a proof without transcript padding, a shortened final polynomial. native = verify_stark_proof (+ degree argument = proof degree); outer = set_stark_proof_with_pis_target, witness generation, gate constraints re-evaluated on every row, prove, verify, public inputs re-exposed",
         "obligations": len(thms), "discharged": len([t for t in thms if assumptions.get(t, "").startswith("Closed")]),
         "theorems": {t: assumptions.get(t, "not checked") for t in thms},
         "checker_cmd": "make -C coq Props/C11.vo && coqc Audit (Print Assumptions); harness c11",
